@@ -2,6 +2,7 @@ package common
 
 import (
 	"os"
+	"strings"
 )
 
 type execGenOpts struct {
@@ -55,6 +56,22 @@ func genExecConfig(r *RNG, v2 bool, o execGenOpts) *ExecConfig {
 		ng := r.Intn(5)
 		for gi := 0; gi < ng; gi++ {
 			g := &ExecGen{Name: "g" + Itoa(gi+1), Accept: subsetInts(r, cfg.Order, 2, 3), FileType: "go", Filename: exFilenames[r.Intn(3)]}
+			if r.Chance(1, 8) {
+				// a file name with a directory part: the directory is not the executor's to create
+				g.Filename = "nested/delta.go"
+				if r.Bool() {
+					nested := t.Dir + "/nested"
+					have := false
+					for _, d := range cfg.Dirs {
+						if d == nested {
+							have = true
+						}
+					}
+					if !have {
+						cfg.Dirs = append(cfg.Dirs, nested)
+					}
+				}
+			}
 			switch r.Intn(5) {
 			case 0:
 				g.NamersNil = true
@@ -216,6 +233,13 @@ func ExecGenFailures(c *Ctx, v2 bool) {
 				}
 				if !clash {
 					cfg := cloneExecConfig(base)
+					var keep []string
+					for _, d := range cfg.Dirs {
+						if d != "d1" && !strings.HasPrefix(d, "d1/") {
+							keep = append(keep, d) // nothing can be below a file
+						}
+					}
+					cfg.Dirs = keep
 					cfg.Files = append(cfg.Files, [2]string{"d1", "i am a file"})
 					c.Case(cfg.Lines(), Meta{Nontrivial: true, Features: []string{"fault:mkdir"}})
 				}
